@@ -93,6 +93,7 @@ def chain_of(path: T):
 
 
 config_caches: Set[str] = set()
+DIAG_SLOTS: Set[str] = set()
 
 
 def analyse(run: Run, rec: sym.Record, module: str, scope: str, event_params: Set[str], state_params: Dict[str, str],
@@ -102,6 +103,30 @@ def analyse(run: Run, rec: sym.Record, module: str, scope: str, event_params: Se
         pth = e.path if e.path is not None else e.base
         if e.kind.startswith("memo-"):
             continue            # a store into a table proved to be a pure memo (vstatic/memo.py): not state
+        r0_ = T("attr", (pth, e.key)) if (pth is not None and e.kind == "attr-store") else pth
+        while r0_ is not None and r0_.op in ("sub", "mut"):
+            r0_ = r0_.a[0]
+        if r0_ is not None and r0_.op == "attr" and r0_.a[0] in (PARSER, SELF) and r0_.a[1] in DIAG_SLOTS:
+            continue            # bookkeeping nobody reads (vstatic/shared.py diagnostic_slots): not state a result can depend on
+        if pth is not None and state_params and e.kind in ("sub-store", "del-sub", "mut-call"):
+            # a write to what a comprehension over the WHOLE table collected (`[w for ws in state.values() for w in ws.values()]`):
+            # every thread's entries, unless the comprehension keeps the emitting thread's only (`... if tid == event.tid`)
+            for comp in [x for x in sym.walk(sym.resolve_widens(rec, pth)) if x.op == "comp"]:
+                for gi, (elem_, it_, conds_) in enumerate(comp.a[2]):
+                    if it_.op == "call" and it_.a[0].op == "attr" and it_.a[0].a[1] in ("values", "items", "keys") \
+                            and it_.a[0].a[0].op == "param" and it_.a[0].a[0].a[0] in state_params:
+                        all_conds = [c_ for g_ in comp.a[2] for c_ in g_[2]]
+                        own = any(x.op == "cmp" and x.a[0] == "==" and any(
+                            y.op == "attr" and y.a[1] == "tid" and y.a[0].op == "param" and y.a[0].a[0] in event_params
+                            for y in (x.a[1], x.a[2])) for c_ in all_conds for x in sym.walk(c_))
+                        k_ = (e.func, "all-threads", e.lineno)
+                        if not own and it_.a[0].a[1] != "keys" and k_ not in seen:
+                            seen.add(k_)
+                            run.ob("R1", module, e.func.rsplit(".", 1)[-1], f"{e.kind} at line {e.lineno}: only the emitting thread's entries are written", False,
+                                   f"{e.func.rsplit('.', 1)[-1]} performs {e.key if isinstance(e.key, str) else e.kind} on what a comprehension over "
+                                   f"{sym.pretty(it_)[:40]} collected - the entries of every thread in the table: a record of one thread changes "
+                                   f"the windows of the others", line=e.lineno,
+                                   witness="two threads with an open call each; one of them ends its call")
         if pth is not None and state_params and e.kind in ("sub-store", "del-sub", "mut-call") and any(x.op == "widen" for x in sym.walk(pth)):
             # a write through a name that a loop over the whole table rebinds (`for windows in state.values(): ...` and then
             # `windows[code] = []`): after the loop it names the entry of whichever thread came last, not the emitting one's
@@ -324,6 +349,9 @@ def single_entry_caches(tp, interp) -> Dict[str, str]:
 
 
 def check(repo: Repo, run: Run) -> None:
+    from .. import shared as _shared
+    DIAG_SLOTS.clear()
+    DIAG_SLOTS.update(_shared.diagnostic_slots(repo, repo.cls("traces_parser", "TracesParser")))
     learned_names(repo, run)
     from .c07 import Ctx
     ctx = Ctx(repo)
